@@ -8,6 +8,8 @@ import hashlib, json, os, shutil, subprocess, tempfile
 
 VERIF = os.path.dirname(os.path.dirname(os.path.abspath(__file__)))
 BUILD = os.path.join(VERIF, ".build")
+# scratch area for sandboxes: one per copy of /verif (a background run from a snapshot must not share — or clean up — ours)
+BBOX_BASE = "/var/tmp/copia-bbox" + ("" if VERIF == "/verif" else "-" + format(__import__("zlib").crc32(VERIF.encode()), "08x"))
 CLI_BIN = os.path.join(BUILD, "cli-target", "debug", "copia")
 HARNESS_BIN = os.path.join(BUILD, "target", "release", "copia-corr")
 SSHSTUB = os.path.join(VERIF, "tools", "sshstub")
@@ -66,8 +68,8 @@ def blake3_hex(data_list):
 
 class Sandbox:
     def __init__(self, tag="case"):
-        os.makedirs("/var/tmp/copia-bbox", exist_ok=True)
-        self.dir = tempfile.mkdtemp(prefix=tag + "-", dir="/var/tmp/copia-bbox")
+        os.makedirs(BBOX_BASE, exist_ok=True)
+        self.dir = tempfile.mkdtemp(prefix=tag + "-", dir=BBOX_BASE)
         self.home = os.path.join(self.dir, "home")
         os.makedirs(self.home)
         # TZ: a non-UTC zone with DST, given as a POSIX string (no tzdata needed). The properties hold in any
